@@ -2,19 +2,23 @@
 (* Validates runs recorded from the real interpreter against IOStreams (the   *)
 (* same Apply / Enabled / Prediction / IsAllowedStdout as MC_ and Gen_).      *)
 (* Events (all "step" events carry act and obs):                              *)
-(*  act.op = "config": act.cfg = configuration of the run that follows        *)
+(*  act.op = "config": act.cfg = configuration of the run that follows;       *)
+(*           act.cont = TRUE: the run is the next Execute on the Interpreter  *)
+(*           of the run that has just ended (NextRun), FALSE: a new one       *)
 (*  act.op = an action: obs.opens = calls of the open-file function made      *)
 (*           during this action, obs.notes = results the program saw          *)
-(*  act.op = "end":    obs = [err, starts, files, extra, stdout, serr]        *)
+(*  act.op = "end":    obs = [err, starts, files, extra, stdout, serr, stale] *)
+(*           (stale = calls, during this run, of an open-file function that   *)
+(*           was configured for an earlier run of the session: none allowed)  *)
 (*  {"ev":"reset"} separates runs.                                            *)
 EXTENDS IOStreams, TraceBase
 
 VARIABLES st, l
 vars == <<st, l>>
 
-DefaultCfg == [ne |-> FALSE, nw |-> FALSE, nr |-> FALSE, custom |-> TRUE, failAt |-> 0 - 1, buffered |-> FALSE,
+DefaultCfg == [ne |-> FALSE, nw |-> FALSE, nr |-> FALSE, custom |-> TRUE, failAt |-> 0 - 1, wkind |-> "plain", omode |-> "default",
                stdin |-> <<>>, pre |-> {}]
-FixCfg(c) == [ne |-> c.ne, nw |-> c.nw, nr |-> c.nr, custom |-> c.custom, failAt |-> c.failAt, buffered |-> c.buffered,
+FixCfg(c) == [ne |-> c.ne, nw |-> c.nw, nr |-> c.nr, custom |-> c.custom, failAt |-> c.failAt, wkind |-> c.wkind, omode |-> c.omode,
               stdin |-> c.stdin, pre |-> {c.pre[k] : k \in 1..Len(c.pre)}]
 
 Init == st = InitState(DefaultCfg) /\ l = 1
@@ -24,7 +28,8 @@ NotesMatch(got, want) ==
   /\ \A k \in 1..Len(want) : /\ got[k].k = want[k].k
                              /\ want[k].j => (got[k].v = want[k].v /\ got[k].s = want[k].s)
 
-Bag(q) == [c \in Cmds \cup {"other"} |-> Cardinality({k \in 1..Len(q) : (IF q[k] \in Cmds THEN q[k] ELSE "other") = c})]
+AllCmds == OutCmds \cup SysCmds
+Bag(q) == [c \in AllCmds \cup {"other"} |-> Cardinality({k \in 1..Len(q) : (IF q[k] \in AllCmds THEN q[k] ELSE "other") = c})]
 
 OpName(act) ==
   IF act.op = "print" THEN (IF act.dest = "stdout" THEN "print-stdout" ELSE IF act.dest = "cmd" THEN "print-pipe"
@@ -36,10 +41,13 @@ Fail(what, opname, expected) ==
   /\ st' = InitState(DefaultCfg)
   /\ l' = AfterNextReset(l)
 
+\* a continued run needs a run that has ended (and whose end event was accepted) before it
 TConfig ==
   /\ l <= NLog /\ Log[l].ev = "step" /\ Log[l].act.op = "config"
-  /\ st' = InitState(FixCfg(Log[l].act.cfg))
-  /\ l' = l + 1
+  /\ IF Log[l].act.cont
+     THEN IF st.result = "run" THEN Fail("continued-run-without-a-finished-one", "config", "the driver recorded a session out of order")
+          ELSE st' = NextRun(st, FixCfg(Log[l].act.cfg)) /\ l' = l + 1
+     ELSE st' = InitState(FixCfg(Log[l].act.cfg)) /\ l' = l + 1
 
 TAct ==
   /\ l <= NLog /\ Log[l].ev = "step" /\ Log[l].act.op \notin {"config", "end"}
@@ -50,7 +58,8 @@ TAct ==
         ELSE LET s2 == Apply(st, act)
                  newOpens == SubSeq(s2.opens, Len(st.opens) + 1, Len(s2.opens))
                  newNotes == SubSeq(s2.notes, Len(st.notes) + 1, Len(s2.notes))
-             IN IF obs.opens # newOpens THEN Fail("opens", OpName(act), [opens |-> newOpens])
+             \* (without a custom open-file function the calls cannot be observed)
+             IN IF st.custom /\ obs.opens # newOpens THEN Fail("opens", OpName(act), [opens |-> newOpens])
                 ELSE IF ~NotesMatch(obs.notes, newNotes) THEN Fail("results", OpName(act), [notes |-> newNotes])
                 ELSE st' = s2 /\ l' = l + 1
 
@@ -65,7 +74,8 @@ TEnd ==
         ELSE IF obs.extra # <<>> \/ \E n \in Files : obs.files[n] # pr.files[n] THEN Fail("files", lastop, [files |-> pr.files])
         ELSE IF pr.stdoutJudged /\ ~IsAllowedStdout(obs.stdout, pr.stdout.prog, pr.stdout.kids) THEN Fail("stdout", lastop, [stdout |-> pr.stdout])
         ELSE IF pr.serrJudged /\ obs.serr # pr.serr THEN Fail("stderr", lastop, [serr |-> pr.serr])
-        ELSE st' = InitState(DefaultCfg) /\ l' = l + 1
+        ELSE IF obs.stale # <<>> THEN Fail("open-through-earlier-runs-openfile", lastop, [stale |-> <<>>])
+        ELSE st' = s2 /\ l' = l + 1      \* the ended run stays: the next Execute of the session starts from it
 
 TReset == l <= NLog /\ Log[l].ev = "reset" /\ st' = InitState(DefaultCfg) /\ l' = l + 1
 TDone == l = NLog + 1 /\ PrintT("TRACE-END") /\ l' = l + 1 /\ UNCHANGED st
